@@ -84,6 +84,12 @@ type Params struct {
 	ClockSteps bool `json:",omitempty"`
 	// Extra enables the scenarios added after the first two seeding rounds
 	Extra bool `json:",omitempty"`
+	// Tail appends directed scripts after the history proper, driven by a PRNG of
+	// their own: the history up to there is the one the same seed gave before
+	Tail bool `json:",omitempty"`
+	// PrefixLess ends the tail with services lines that lack the prefix the protocol
+	// demands (outside C06's domain; C01 asks what they do on every replica)
+	PrefixLess bool `json:",omitempty"`
 }
 
 type gsess struct {
@@ -113,6 +119,7 @@ type Gen struct {
 	captcha  bool
 	lastAuth map[uint64]string
 	fresh    int
+	seed     int64
 }
 
 var nickPool = []string{"alice", "Alice", "bob", "b[ob]", "B{OB}", "carol", "dave", "eve|", "EVE\\", "mallory", "x", "Guest1"}
@@ -122,7 +129,7 @@ var addrPool = []string{"10.0.0.1", "10.0.0.2", "10.0.0.3", "192.168.1.77", "200
 var textPool = []string{"hi", "hello world", ":colon first", "", " ", "a b c", "\x01ACTION waves\x01", "üñí©ødé", strings.Repeat("x", 600), "1", "#a", "alice"}
 
 func New(seed int64, p Params) *Gen {
-	g := &Gen{R: rand.New(rand.NewSource(seed)), P: p, now: T0, lastAuth: map[uint64]string{}}
+	g := &Gen{R: rand.New(rand.NewSource(seed)), P: p, now: T0, lastAuth: map[uint64]string{}, seed: seed}
 	if p.Base != 0 {
 		g.now = p.Base
 	}
@@ -875,7 +882,152 @@ func (g *Gen) History() []Entry {
 			g.track(s)
 		}
 	}
+	if g.P.Tail {
+		g.tail()
+	}
 	return g.out
+}
+
+// tail appends directed scripts (added after the sixth seeding round). They draw
+// from a PRNG of their own, so everything before them is unchanged.
+func (g *Gen) tail() {
+	g.R = rand.New(rand.NewSource(g.seed*7919 + 104729))
+	order := g.R.Perm(5)
+	n := 2 + g.R.Intn(2)
+	for _, sc := range order[:n] {
+		g.tailScenario(sc)
+	}
+	if g.P.PrefixLess && g.P.Services && g.hasCfg {
+		for _, s := range g.live() {
+			if s.link && len(s.pseudo) > 1 {
+				if rs := g.regs(); len(rs) > 0 {
+					g.line(s, assemble("", "KILL", []string{rs[g.R.Intn(len(rs))].nick}, true, "no prefix"))
+				}
+				break
+			}
+		}
+	}
+}
+
+func (g *Gen) tailScenario(sc int) {
+	switch sc {
+	case 0: // services announce the nickchange of a pseudo-client (with and without timestamp)
+		if !g.P.Services || !g.hasCfg {
+			return
+		}
+		var link *gsess
+		for _, s := range g.live() {
+			if s.link && len(s.pseudo) > 0 {
+				link = s
+			}
+		}
+		if link == nil {
+			link = g.makeLink()
+			if !link.link {
+				return
+			}
+		}
+		p := link.pseudo[g.R.Intn(len(link.pseudo))]
+		if p == "" || strings.ContainsAny(p, " :") {
+			return
+		}
+		switch g.R.Intn(3) {
+		case 0:
+			g.line(link, assemble(p, "NICK", []string{"New" + p, "1422134999"}, false, ""))
+		case 1:
+			g.line(link, assemble(p, "NICK", []string{"New" + p}, true, "1422134999"))
+		default:
+			g.line(link, assemble(p, "NICK", []string{"New" + p}, false, ""))
+		}
+		g.line(link, assemble(p, "PRIVMSG", []string{g.anyNick()}, true, "still here"))
+	case 1: // a very long user name: it is part of the prefix of every line the session originates
+		rs := g.regs()
+		if len(rs) == 0 {
+			return
+		}
+		other := rs[g.R.Intn(len(rs))]
+		s := g.newSession()
+		nick := fmt.Sprintf("longu%d", g.R.Intn(3))
+		long := g.pick([]string{strings.Repeat("u", 600), strings.Repeat("é", 300), strings.Repeat("u", 63) + strings.Repeat("é", 200),
+			strings.Repeat("u", 62) + strings.Repeat("\U0001f600", 120), strings.Repeat("u", 470), strings.Repeat("€", 160)})
+		g.line(s, "NICK "+nick)
+		g.line(s, "USER "+long+" 0 * :long user")
+		s.nick, s.user, s.reg = nick, true, true
+		ch := g.pick([]string{"#tail", "#" + strings.Repeat("é", 30)})
+		g.line(other, "JOIN "+ch)
+		g.line(s, "JOIN "+ch)
+		g.line(s, "PRIVMSG "+ch+" :hello from a long prefix")
+		g.line(s, "TOPIC "+ch+" :"+g.anyText())
+		g.line(other, "WHOIS "+nick)
+		g.line(other, "WHO "+ch)
+		g.line(s, "NICK "+nick+"x")
+		s.nick = nick + "x"
+		if g.R.Intn(2) == 0 {
+			g.line(s, "QUIT :"+g.anyText())
+			s.dead = true
+		}
+	case 2: // a captcha URL which does not parse, then somebody who needs a captcha
+		if g.P.NoConfig {
+			return
+		}
+		g.rev++
+		g.hasCfg = true
+		g.captcha = false
+		url := g.pick([]string{"http://a b/", "http://[::1/", "%zz", "http://captcha.example/%"})
+		toml := fmt.Sprintf("SessionExpiration = \"30m0s\"\nPostMessageCooloff = \"0\"\nCaptchaURL = %q\nCaptchaHMACSecret = %q\nCaptchaRequiredForLogin = true\n[IRC]\n  [[IRC.Operators]]\n    Name = %q\n    Password = %q\n  [[IRC.Services]]\n    Password = %q\n",
+			url, CaptchaKey, OperName, OperPass, SvcPass)
+		g.emit(Entry{Type: int64(robust.Config), Data: toml, Revision: g.rev, Cmd: "CONFIG"})
+		s := g.newSession()
+		g.line(s, "NICK cap"+fmt.Sprint(g.R.Intn(3)))
+		g.line(s, "USER u 0 * :needs a captcha")
+		rs := g.regs()
+		if len(rs) > 0 {
+			a := rs[g.R.Intn(len(rs))]
+			g.line(a, "JOIN #capx")
+			g.line(a, "MODE #capx +x")
+			if len(rs) > 1 {
+				g.line(rs[g.R.Intn(len(rs))], "JOIN #capx")
+			}
+		}
+		g.config()
+	case 3: // the configuration in force does not set SessionExpiration at all
+		if g.P.NoConfig {
+			return
+		}
+		g.rev++
+		g.hasCfg = true
+		g.captcha = false
+		toml := fmt.Sprintf("PostMessageCooloff = \"0\"\n[IRC]\n  [[IRC.Operators]]\n    Name = %q\n    Password = %q\n  [[IRC.Services]]\n    Password = %q\n", OperName, OperPass, SvcPass)
+		g.emit(Entry{Type: int64(robust.Config), Data: toml, Revision: g.rev, Cmd: "CONFIG"})
+		for _, s := range g.regs() {
+			if g.R.Intn(2) == 0 {
+				g.line(s, g.clientLine(s))
+				g.track(s)
+			}
+		}
+	case 4: // SVSPART, then the parted user is looked up, renames and leaves
+		if !g.P.Services || !g.hasCfg {
+			return
+		}
+		var link *gsess
+		for _, s := range g.live() {
+			if s.link && len(s.pseudo) > 0 {
+				link = s
+			}
+		}
+		rs := g.regs()
+		if link == nil || len(rs) < 2 {
+			return
+		}
+		a, b := rs[0], rs[1]
+		g.line(a, "JOIN #svsp")
+		g.line(b, "JOIN #svsp")
+		g.line(link, assemble(link.pseudo[0], "SVSPART", []string{a.nick, "#svsp"}, false, ""))
+		g.line(b, "WHOIS "+a.nick)
+		g.line(a, "NICK "+a.nick+"y")
+		g.track(a)
+		g.line(a, "PRIVMSG #svsp :am i still here")
+	}
 }
 
 func (g *Gen) regs() []*gsess {
@@ -1246,8 +1398,11 @@ func ParamsFor(prop string, seed int64, tier string, commands []string) Params {
 		MoD:       r%7 == 0,
 		Deletes:   true,
 		Extra:     true,
+		Tail:      true,
 	}
 	switch prop {
+	case "C01":
+		p.PrefixLess = true
 	case "C06":
 		p.Garbage = 0.25
 		p.WildServiceNicks = r%2 == 0
